@@ -145,6 +145,10 @@ def gen_edit(rng, spec: dict) -> dict:
             ti = rng.randrange(len(vs[vi]["terms"]))
             term = vs[vi]["terms"][ti]
             lo, hi = fdec(vs[vi]["min"]), fdec(vs[vi]["max"])
+            if not np.isfinite(lo):  # infinite range: edit inside a finite window (a NaN parameter would not survive the
+                lo = -10.0           # spec round trip: Triangle(left, top, nan) is the two-argument form of the constructor)
+            if not np.isfinite(hi):
+                hi = 10.0
             if t == "term_attr":
                 attrs = [] if term["cls"] == "Function" else [k for k, v in term["args"].items() if not isinstance(v, (list, dict))]
                 if not attrs:
@@ -168,6 +172,8 @@ def gen_edit(rng, spec: dict) -> dict:
             vi = rng.randrange(len(spec["outputs"]))
             o = spec["outputs"][vi]
             lo, hi = fdec(o["min"]), fdec(o["max"])
+            if not (np.isfinite(lo) and np.isfinite(hi)):
+                continue
             which = rng.choice(["min", "max"])
             v = lo - rng.choice([0.5, 1.0]) if which == "min" else hi + rng.choice([0.5, 1.0])
             return {"t": t, "var": ["out", vi], "which": which, "v": fenc(v)}
